@@ -725,7 +725,15 @@ class C01(ScanProperty):
         if rng.random() < 0.2:
             ops = [['set_offset', rng.choice(gen.boundaries(inp))]] + ops
         case = {'modes': modes, 'input': inp, 'ops': ops}
+        # patterns at the edge of the grammar, in any position of the list: the empty pattern, patterns that match only
+        # the empty string, a pattern that matches nothing longer than one character
+        if rng.random() < 0.25:
+            modes[0]['patterns'].insert(rng.randrange(len(modes[0]['patterns']) + 1),
+                                        {'p': rng.choice(['', '', '()', 'a{0}', '(|)', 'x?']), 't': 90 + rng.randint(0, 5)})
         if i % 5 == 4:
+            if rng.random() < 0.5:
+                # add_patterns: the token type is the INDEX in the list, also behind patterns that never yield a token
+                modes[0]['patterns'].insert(rng.randrange(len(modes[0]['patterns'])), {'p': rng.choice(['', '', '()']), 't': 0})
             for k, p in enumerate(modes[0]['patterns']):
                 p['t'] = k
             case['simple'] = True
